@@ -74,9 +74,14 @@ func (r *MixedIndentationRule) Check(ctx *linter.Context) ([]linter.Violation, e
 	// Track the first indentation type we encounter
 	var firstIndentType string // "tab" or "space"
 
+	_, startsInCode := linter.LineMask(ctx.SQL)
+
 	for lineNum, line := range ctx.Lines {
 		if len(line) == 0 {
 			continue
+		}
+		if lineNum < len(startsInCode) && !startsInCode[lineNum] {
+			continue // continuation of a multi-line literal or comment: not indentation
 		}
 
 		// Get leading whitespace
@@ -144,8 +149,12 @@ func (r *MixedIndentationRule) Check(ctx *linter.Context) ([]linter.Violation, e
 // Returns the fixed content with consistent space-based indentation, and nil error.
 func (r *MixedIndentationRule) Fix(content string, violations []linter.Violation) (string, error) {
 	lines := strings.Split(content, "\n")
+	_, startsInCode := linter.LineMask(content)
 
 	for i, line := range lines {
+		if i < len(startsInCode) && !startsInCode[i] {
+			continue // continuation of a multi-line literal or comment: not indentation
+		}
 		// Replace tabs with 4 spaces in leading whitespace only
 		leadingWhitespace := getLeadingWhitespace(line)
 		if len(leadingWhitespace) > 0 {
